@@ -1,3 +1,4 @@
+pub mod c04;
 pub mod mrp_oracles;
 pub mod mrp_props;
 
@@ -27,5 +28,6 @@ pub struct PropertyDef {
 pub fn registry() -> Vec<PropertyDef> {
     let mut v = Vec::new();
     v.extend(mrp_props::defs());
+    v.extend(c04::defs());
     v
 }
